@@ -62,6 +62,11 @@ ASSUMPTIONS = [
     'there without flows) are required to run (documented: "only works for '
     'inactive tasks"; no-flow tasks do not flow on, so members with in-group '
     'prerequisites cannot follow).',
+    'Default flow option on a (connected) group all of whose active members '
+    'are no-flow proxies: the documented default assignment ("the existing '
+    'flow numbers of those active tasks") is then no flow, so the trigger is '
+    'read like --flow=none and members with in-group prerequisites are not '
+    'required to run (observation class in-group-child-of-no-flow-group).',
     'Only group-start members are exempt from holds and pause (the statement '
     'says so for them only); other members are required to run only if at '
     'the end of the drain they are not held, queued or runahead-limited and '
@@ -78,10 +83,50 @@ ASSUMPTIONS = [
     'drain only; iteration cap => inconclusive.  No --wait, no stop '
     'commands, no retries, no future/absolute triggers, no xtriggers in this '
     'profile.',
-    'A jobs-submit of a member that was already preparing when the command '
-    'came (same submit number) is the old job, not a run caused by the '
-    'trigger.  Under --flow=none a waiting no-flow proxy may be merged into '
+    'A jobs-submit of a job that became preparing before the command '
+    'started is the old job, not a run caused by the trigger (a member that '
+    'was preparing when the command came, or the orphan of a proxy that an '
+    'earlier trigger removed while it was preparing); a re-spawned proxy '
+    'that is prepared after the command counts as a run even if it re-uses '
+    'the old submit number.  Under --flow=none a waiting '
+    'no-flow proxy may be merged into '
     'a flow before it is launched: any launch after the command counts.',
+    '"Left to finish rather than resubmitted" (live group-start member): a '
+    'later submit number counts as a resubmission only if its flows lie '
+    'within the member\'s own flows plus the triggered ones; under the '
+    'default flow option the triggered flows are the documented ones (flows '
+    'of the group\'s active members, the live member being one), so the '
+    'natural arrival of another flow at the same task later on is not '
+    'charged to the trigger.',
+    'A live group-start member whose job ends by itself after the command '
+    '(the command not having touched its status) was "left to finish"; a '
+    'later job of it that something else brings about once it is final (a '
+    'retained incomplete task re-queued when a flow reaches it again) is '
+    'not a resubmission by the trigger.',
+    'A member that an earlier trigger has triggered and that is still '
+    'waiting for its job (manual, not preparing yet) when a second trigger '
+    'names it, and that the second command leaves in the pool (e.g. '
+    '--flow=none removes nothing), still owes the earlier trigger a launch: '
+    'the statement does not say a later trigger revokes it, so that launch '
+    'is not held against the later trigger\'s in-group order.',
+    'The recorded root cause "active member not in the triggered flow" '
+    'covers every pooled non-start member whose proxy survives the removal '
+    'for the triggered flows (so that the re-spawn in the triggered flow is '
+    'dropped by add_to_pool): no flow in common, or - seen in the pool after '
+    'the command - only stripped of the triggered flows and kept in others.',
+    'Root cause with its own suffix (pending entry): under --flow=new/N a '
+    'pooled group-start member keeps its old flows (the trigger merges the '
+    'triggered flow into it), its outputs spawn the other members in old + '
+    'triggered flows, and a member that ran before in one of the old flows '
+    'is not spawned again (its history was erased for the triggered flow '
+    'only): recognised by member not pooled, launched before the command in '
+    'a non-triggered flow F, and a pooled group-start member upstream in '
+    'the group carrying F.',
+    'The recorded root cause "messages of an orphaned job complete the '
+    're-spawned proxy" is recognised from the trace alone: outputs credited '
+    'to the pooled proxy of the member after the command whose job became '
+    'preparing before the command started (whichever trigger removed the '
+    'proxy that owned the job).',
     'Violations that trace back to one of four recorded root causes carry '
     'their own signature suffix (live group-start parent: all outputs '
     'replayed; active member outside the triggered flow, also for members '
@@ -92,6 +137,7 @@ ASSUMPTIONS = [
 ]
 
 LIVE = ('preparing', 'submitted', 'running')
+FINAL = ('succeeded', 'failed', 'submit-failed', 'expired')
 FLOWS = [[], [], [], ['new'], ['new'], ['1'], ['2'], ['none']]
 PRE_OPS = ['loop', 'loop', 'loop', 'ret', 'ret', 'adv', 'adv', 'del', 'del',
            'round', 'round', 'round', 'hold', 'release', 'pause', 'resume']
@@ -204,18 +250,25 @@ def out_of_msg(spec, name: str, msg: str) -> Optional[str]:
     return None
 
 
-def in_flow(flow_opt: List[str], flows: List[int], seen_before: Set[int]):
-    """Is a launch with these flows 'in the triggered flow'?"""
+def in_flow(flow_opt: List[str], flows: List[int], seen_before: Set[int],
+            new: Optional[Set[int]] = None):
+    """Is a launch with these flows 'in the triggered flow'?
+
+    new: the flow numbers the command itself brought into being (--flow=new);
+    when not known, any flow number not seen before the command.
+    """
     if not flow_opt:
         return True
     if flow_opt == ['none']:
         return not flows
     if flow_opt == ['new']:
+        if new:
+            return any(f in new for f in flows)
         return any(f not in seen_before for f in flows)
     return any(str(f) in flow_opt for f in flows)
 
 
-def only_flow(flow_opt, flows, seen_before, single_flow) -> bool:
+def only_flow(flow_opt, flows, seen_before, single_flow, new=None) -> bool:
     """Can only the triggered flow account for a launch with these flows?"""
     if not flow_opt:
         # (a no-flow proxy triggered again stays in no flow)
@@ -223,6 +276,8 @@ def only_flow(flow_opt, flows, seen_before, single_flow) -> bool:
     if flow_opt == ['none']:
         return not flows
     if flow_opt == ['new']:
+        if new:
+            return bool(flows) and all(f in new for f in flows)
         return bool(flows) and all(f not in seen_before for f in flows)
     return bool(flows) and all(str(f) in flow_opt for f in flows)
 
@@ -241,6 +296,7 @@ class Trig:
         self.prep_before = set(ev['prep_before'])
         self.prep_after = set(ev['prep_after'])
         self.seen_flows: Set[int] = set()
+        self.new_flows: Set[int] = set()
         self.start: Dict[str, bool] = {}
         self.in_edges: Dict[str, List[Tuple[str, str]]] = {}
 
@@ -267,14 +323,21 @@ def watch_outputs(sim, spec):
     message as an `out` trace event (the engine's `pm` monitor skips
     messages after which the task proxy has left the pool)."""
     tem = sim.schd.task_events_mgr
+    pool = sim.schd.pool
     inner = tem.process_message
 
     def process_message(itask, severity, message, *a, **k):
+        # (event_time, flag, submit_num, forced)
+        msn = k.get('submit_num', a[2] if len(a) > 2 else None)
+        pooled = pool.get_task(itask.point, itask.tdef.name) is itask
         r = inner(itask, severity, message, *a, **k)
         o = out_of_msg(spec, itask.tdef.name, str(message))
         if o is not None and o in itask.state.outputs.get_completed_outputs():
+            # sn: the job the scheduler credited the message to; msn: the
+            # job number the message itself carried (None = internal);
+            # pooled: the proxy was the one in the pool (not a removed one)
             sim.ev('out', cycle=str(itask.point), name=itask.tdef.name,
-                   out=o)
+                   out=o, sn=itask.submit_num, msn=msn, pooled=pooled)
         return r
 
     tem.process_message = process_message
@@ -385,8 +448,22 @@ def _oracle(sc: SCase, spec, final_pool, paused_end, crashed, viol,
             in_cmd.update(range(ev['n0'], j))
     launches: Dict[str, List[Tuple[int, dict]]] = {}
     pms: Dict[str, List[Tuple[int, Set[str]]]] = {}
+    outs: Dict[str, List[Tuple[int, dict]]] = {}
+    # (member, submit number) -> trace indices at which it became preparing
+    preps: Dict[Tuple[str, int], List[int]] = {}
+    states: Dict[str, List[Tuple[int, dict]]] = {}
+    removes: Dict[str, List[int]] = {}
     for i, ev in enumerate(trace):
         k = ev['k']
+        if k == 'state':
+            states.setdefault(f'{ev["cycle"]}/{ev["name"]}', []).append(
+                (i, ev))
+        elif k == 'remove':
+            removes.setdefault(f'{ev["cycle"]}/{ev["name"]}', []).append(i)
+        if k == 'state' and ev['after'][0] == 'preparing' and (
+                ev['before'][0] != 'preparing'):
+            preps.setdefault((f'{ev["cycle"]}/{ev["name"]}',
+                              ev['submit_num']), []).append(i)
         if k == 'cmd' and ev['cmd'] == 'gtrigger':
             classes.add('trigger-error' if ev['err'] else 'trigger')
             if ev['err'] is None:
@@ -394,6 +471,13 @@ def _oracle(sc: SCase, spec, final_pool, paused_end, crashed, viol,
                 tg.seen_flows = set(seen_flows)
                 for t in ev['before']:
                     tg.seen_flows.update(t['flows'])
+                # flow numbers that appear while the command runs (a later
+                # --flow=new command makes other ones: not this trigger's)
+                for e2 in trace[ev['n0']:i]:
+                    tg.new_flows.update(e2.get('flows') or ())
+                for t in ev['after']:
+                    tg.new_flows.update(t['flows'])
+                tg.new_flows -= tg.seen_flows
                 trigs.append(tg)
             for t in ev['after']:
                 seen_flows.update(t['flows'])
@@ -404,11 +488,20 @@ def _oracle(sc: SCase, spec, final_pool, paused_end, crashed, viol,
         elif k == 'out':
             id_ = f'{ev["cycle"]}/{ev["name"]}'
             pms.setdefault(id_, []).append((i, {ev['out']}))
+            outs.setdefault(id_, []).append((i, ev))
         elif 'flows' in ev and i not in in_cmd:
             seen_flows.update(ev['flows'] or ())
     if not trigs:
         return False
     single_flow = seen_flows <= {1}
+
+    def predates(m, submit_num, i, tg) -> bool:
+        """Was job `submit_num` of m, seen at trace index i, prepared before
+        trigger command tg started?  (Then it is an old job - possibly the
+        orphan of a proxy that this or an earlier trigger removed - and not
+        a run caused by tg.)"""
+        at = [p for p in preps.get((m, submit_num), ()) if p <= i]
+        return bool(at) and at[-1] < tg.ev['n0']
     if len(trigs) > 1:
         classes.add('repeated-trigger')
 
@@ -439,6 +532,23 @@ def _oracle(sc: SCase, spec, final_pool, paused_end, crashed, viol,
         if len(gset) >= 2 and n_edges:
             nontrivial = True
             classes.add('in-group-edge')
+        # connected components of the id list (each is triggered as a group
+        # of its own, with its own default flow assignment)
+        comp = {m: {m} for m in tg.group}
+        for m in tg.group:
+            for (u, _o) in tg.in_edges[m]:
+                if comp[u] is not comp[m]:
+                    merged = comp[u] | comp[m]
+                    for x in merged:
+                        comp[x] = merged
+
+        def default_is_no_flow(m, _tg=tg, _fl=fl, _comp=comp):
+            """Default flow option and every active member of m's connected
+            group is a no-flow proxy: the documented default ("the existing
+            flow numbers of those active tasks") is no flow at all."""
+            act = [_tg.before[x] for x in _comp[m] if x in _tg.before]
+            return not _fl and bool(act) and not any(
+                t['flows'] for t in act)
 
         def window_end(m, _ti=ti):
             for t2 in trigs[_ti + 1:]:
@@ -480,11 +590,50 @@ def _oracle(sc: SCase, spec, final_pool, paused_end, crashed, viol,
                        for tr in model.trees_at(t, p))
 
         def is_off(x, _tg=tg, _fl=fl):
+            """Pooled member whose proxy the removal for the triggered
+            flow(s) leaves in the pool: none of its flows is a triggered
+            one, or (seen after the command) it was only stripped of the
+            triggered flows and lives on in its other flows."""
             bx = _tg.before.get(x)
-            return bx is not None and bool(
-                (_fl and _fl != ['none']
-                 and not in_flow(_fl, bx['flows'], _tg.seen_flows))
-                or (not _fl and not bx['flows']))
+            if bx is None:
+                return False
+            if not _fl:
+                return not bx['flows']
+            if _fl == ['none']:
+                return False
+            if not in_flow(_fl, bx['flows'], _tg.seen_flows,
+                           _tg.new_flows):
+                return True
+            ax = _tg.after.get(x)
+            return (ax is not None and bool(ax['flows'])
+                    and set(ax['flows']) < set(bx['flows'])
+                    and not in_flow(_fl, ax['flows'], _tg.seen_flows,
+                                    _tg.new_flows)
+                    and not any(_tg.ev['n0'] <= j < _tg.idx
+                                for j in removes.get(x, ())))
+
+        def merged_old_flows(m, _tg=tg, _fl=fl) -> Set[int]:
+            """Flows (not triggered ones) in which m was launched before the
+            command and which a pooled group-start member upstream of m
+            inside the group carries (explicit --flow=new/N only)."""
+            if not _fl or _fl == ['none']:
+                return set()
+            ran_in = {f for (i, ev) in launches.get(m, ()) if i < _tg.idx
+                      for f in (ev.get('flows') or ())}
+            out: Set[int] = set()
+            seen_up, todo = set(), [u for (u, _o) in _tg.in_edges[m]]
+            while todo:
+                u = todo.pop()
+                if u in seen_up:
+                    continue
+                seen_up.add(u)
+                bu = _tg.before.get(u)
+                if _tg.start[u] and bu is not None:
+                    out |= {f for f in bu['flows'] if f in ran_in
+                            and not in_flow(_fl, [f], _tg.seen_flows,
+                                            _tg.new_flows)}
+                todo += [x for (x, _o) in _tg.in_edges[u]]
+            return out
 
         for m in tg.group:
             b = tg.before.get(m)
@@ -492,15 +641,19 @@ def _oracle(sc: SCase, spec, final_pool, paused_end, crashed, viol,
             start = tg.start[m]
             live = b is not None and b['status'] in LIVE
             w_end = window_end(m)
-            # (a jobs-submit of a member that was already preparing when
-            # the command came - same submit number - is the old job, whether
-            # or not the command then removed the proxy)
+            # (the jobs-submit of a job that became preparing before the
+            # command is the old job - of a member that was preparing when
+            # the command came, whether or not the command then removed the
+            # proxy, or the orphan of a proxy that an earlier trigger removed
+            # - and not a run caused by this trigger.  The re-spawned proxy
+            # may be given the old job's submit number again: its launch
+            # counts, it was prepared after the command.)
             win = [(i, ev) for (i, ev) in launches.get(m, ())
-                   if tg.idx < i < w_end and not (
-                       b is not None and b['status'] == 'preparing'
-                       and ev['submit_num'] <= b['submit_num'])]
+                   if tg.idx < i < w_end
+                   and not predates(m, ev['submit_num'], i, tg)]
             mine = [(i, ev) for (i, ev) in win
-                    if in_flow(fl, ev.get('flows') or [], tg.seen_flows)]
+                    if in_flow(fl, ev.get('flows') or [], tg.seen_flows,
+                               tg.new_flows)]
             # member state classes
             if b is None:
                 done_before = any(i < tg.idx for (i, _e) in launches.get(m, ()))
@@ -540,11 +693,22 @@ def _oracle(sc: SCase, spec, final_pool, paused_end, crashed, viol,
             # account for are counted: a proxy of another flow that merges
             # with the triggered one runs on that flow's behalf.
             own = [(i, ev) for (i, ev) in win if only_flow(
-                fl, ev.get('flows') or [], tg.seen_flows, single_flow)]
+                fl, ev.get('flows') or [], tg.seen_flows, single_flow,
+                tg.new_flows)]
             # an earlier trigger of the same member that has not led to a
             # launch yet is still owed one ("once per trigger")
             owed = credit.get(m, 0) + 1
             credit[m] = max(0, owed - len(own))
+            # the launch an earlier trigger of m still owes is not this
+            # trigger's, if this command found the proxy triggered and
+            # waiting for its job (manual, not yet preparing) and left it in
+            # the pool: the statement does not say that a later trigger
+            # revokes it
+            pending = int(
+                owed > 1 and b is not None and b['status'] == 'waiting'
+                and bool(b['manual'])
+                and not any(tg.ev['n0'] <= j < tg.idx
+                            for j in removes.get(m, ())))
             if len(own) > owed:
                 viol.append(Violation(
                     'C28:member-launched-more-often-than-triggered',
@@ -554,12 +718,47 @@ def _oracle(sc: SCase, spec, final_pool, paused_end, crashed, viol,
                     + f' after trigger of {tg.group} --flow={fl}; triggers '
                     f'of this member still owed a launch: {owed}'))
             if start and live:
-                mayflow = set(b['flows']) | {
-                    f for (_i, ev) in win for f in (ev.get('flows') or ())
-                    if in_flow(fl, [f], tg.seen_flows)}
-                later = [ev for (_i, ev) in win
+                # flows a resubmission by this trigger could carry: the
+                # member's own and the triggered ones (default, documented:
+                # "the existing flow numbers of [the group's] active tasks" -
+                # this member is one).  A later natural run of the member
+                # in another flow is not a resubmission.
+                if fl:
+                    tflows = {
+                        f for (_i, ev) in win for f in (ev.get('flows') or ())
+                        if in_flow(fl, [f], tg.seen_flows,
+                                   tg.new_flows)}
+                else:
+                    tflows = {f for x in gset if x in tg.before
+                              for f in tg.before[x]['flows']}
+                mayflow = set(b['flows']) | tflows
+                later = [(i, ev) for (i, ev) in win
                          if ev['submit_num'] > b['submit_num']
                          and set(ev.get('flows') or ()) <= mayflow]
+                # "left to finish rather than resubmitted": if the command
+                # did not touch the member's status and its live job came to
+                # an end by itself before the next job was prepared, it was
+                # left to finish; what re-queued it afterwards (a retained
+                # incomplete task "absorbed" by a flow that reaches it) is
+                # not a resubmission by the trigger
+                reset_by_cmd = any(
+                    tg.ev['n0'] <= j < tg.idx
+                    and e['after'][0] != e['before'][0]
+                    for (j, e) in states.get(m, ()))
+
+                def left_to_finish(i, ev, _m=m, _tg=tg):
+                    at = [p for p in preps.get((_m, ev['submit_num']), ())
+                          if p <= i]
+                    return bool(at) and any(
+                        _tg.idx < j < at[-1] and e['before'][0] in LIVE
+                        and e['after'][0] in FINAL
+                        for (j, e) in states.get(_m, ()))
+
+                if later and not reset_by_cmd and all(
+                        left_to_finish(i, ev) for (i, ev) in later):
+                    classes.add('live-start-member-rerun-after-its-job-ended')
+                    later = []
+                later = [ev for (_i, ev) in later]
                 if later:
                     viol.append(Violation(
                         'C28:live-group-start-member-resubmitted',
@@ -571,7 +770,9 @@ def _oracle(sc: SCase, spec, final_pool, paused_end, crashed, viol,
 
             # (C) order: in-group prerequisites first
             if not start:
-                for (i, ev) in mine:
+                if pending and mine:
+                    classes.add('launch-owed-to-earlier-trigger')
+                for (i, ev) in mine[pending:]:
                     if not expr_true(m, i):
                         missing = sorted({
                             f'{u}:{o}' for (u, o) in tg.in_edges[m]
@@ -668,6 +869,11 @@ def _oracle(sc: SCase, spec, final_pool, paused_end, crashed, viol,
             else:
                 if fl == ['none']:
                     continue
+                if default_is_no_flow(m) and not mine:
+                    # as --flow=none: a no-flow task does not flow on, so
+                    # its in-group children cannot follow
+                    classes.add('in-group-child-of-no-flow-group')
+                    continue
                 if mine:
                     classes.add('in-group-child-ran')
                     continue
@@ -681,9 +887,13 @@ def _oracle(sc: SCase, spec, final_pool, paused_end, crashed, viol,
                         fin['held'] or fin['queued'] or fin['runahead']):
                     classes.add('in-group-child-blocked:held-queued-runahead')
                     continue
+                # outputs credited to the pooled proxy of m since the
+                # trigger that come from a job prepared before the trigger
                 orphan_msgs = sorted({
-                    o for (i, new) in pms.get(m, ()) if i > tg.idx
-                    for o in new})
+                    ev['out'] for (i, ev) in outs.get(m, ())
+                    if i > tg.idx and ev['pooled']
+                    and ev['msn'] in (None, ev['sn'])
+                    and predates(m, ev['sn'], i, tg)})
                 if not expr_true(m, len(trace), fresh_only=True):
                     # root cause apart: true only thanks to a custom output
                     # re-emitted by a re-run group-start member whose
@@ -693,10 +903,11 @@ def _oracle(sc: SCase, spec, final_pool, paused_end, crashed, viol,
                     where = ('not in the pool' if fin is None else
                              f'in the pool as {fin["status"]} '
                              f'sat={fin["sat"]}')
-                elif live and orphan_msgs:
+                elif orphan_msgs:
                     # root cause apart: the member was removed with a live
-                    # job; that job's messages were taken for the
-                    # re-spawned proxy (same submit number)
+                    # job (by this trigger or an earlier one); that job's
+                    # messages were taken for the re-spawned proxy (same
+                    # submit number)
                     sig = ('C28:member-not-run:'
                            'completed-by-messages-of-orphaned-job')
                     where = (('not in the pool' if fin is None else
@@ -709,6 +920,19 @@ def _oracle(sc: SCase, spec, final_pool, paused_end, crashed, viol,
                     if off_flow:
                         sig = ('C28:member-not-run:'
                                'active-member-not-in-triggered-flow')
+                    elif b is None and merged_old_flows(m):
+                        # root cause apart: --flow=new/N, the member is not
+                        # in the pool but ran before in flow F; an upstream
+                        # group-start member is pooled in F: the trigger
+                        # merges the triggered flow into it, its outputs
+                        # spawn children in F + triggered, and the member's
+                        # history in F (the trigger erased only that of the
+                        # triggered flow) stops the spawn
+                        sig = ('C28:member-not-run:start-parent-merged-with-'
+                               'flow-in-which-member-already-ran')
+                        where = (f'not in the pool; it ran before in flows '
+                                 f'{sorted(merged_old_flows(m))} that a pooled '
+                                 f'group-start member upstream also carries')
                 elif off_flow:
                     sig = ('C28:member-not-run:'
                            'active-member-not-in-triggered-flow')
